@@ -271,6 +271,43 @@ def run(ctx):
             rm = [c for c in wt.calls if c.name == "remove" and "task_state" in describe_operand(wt, c.args[0]) and wt.dominates(ns[0].block, c.block) and syn and wt.dominates(c.block, syn[0].block)]
             r.check(len(rm) == 1, "write_task/completed/NEEDS_SYNC-cleared-when-sent", ns[0].loc(), "NEEDS_SYNC is cleared when the sync is scheduled (one sync per request burst)")
 
+    with ctx.rule("C07.R4b", "T2", "a write that is only fed (not flushed) clears FLUSHED, so the idle task flushes it out", floor=5) as r:
+        FLUSHED = rt.const("downlink::WriteTaskState::FLUSHED")["v"]
+        # which WriteKind flushes: the suspend_write closure maps Data -> feed_command (Sink::feed, no flush) and Sync -> send_sync (Sink::send = feed + flush)
+        sw = _body(rt, "downlink::write_task::{closure#0}::{closure#1}::{closure#0}")
+        ctx.saw(sw)
+        kinds = {}
+        for c in sw.calls:
+            if c.name in ("feed_command", "send_sync"):
+                k = [l for d, l, _ in dom_guards(sw, c.block) if d == "disc(kind)"]
+                kinds[k[0] if k else "?"] = c.name
+        r.check(kinds == {"Data": "feed_command", "Sync": "send_sync"}, "suspend_write/kinds", where(sw), "WriteKind::Data => feed_command, WriteKind::Sync => send_sync", "suspend_write maps %s" % kinds)
+        flushes = {}
+        for nm, prim in (("feed_command", "feed"), ("send_sync", "send"), ("send_link", "send")):
+            fb = _body(rt, "downlink::RequestSender::%s::{closure#0}" % nm)
+            ctx.saw(fb)
+            prims = [c.name for c in fb.calls if c.name in ("feed", "send", "flush")]
+            flushes[nm] = prims
+            r.check(prims == [prim], "RequestSender::%s/uses-%s" % (nm, prim), where(fb), "%s uses Sink::%s (%s)" % (nm, prim, "no flush" if prim == "feed" else "feeds and flushes"), "%s uses %s" % (nm, prims))
+        unflushed = {k for k, f in kinds.items() if flushes.get(f) == ["feed"]}
+        n = 0
+        for s_ in sus:
+            if wkind(s_) not in unflushed:
+                continue
+            n += 1
+            g = [(d, l) for d, l, _ in dom_guards(wt, s_.block)]
+            rem = [c for c in wt.calls if c.name == "remove" and describe_operand(wt, c.args[0]) == "task_state" and (wt.dominates(s_.block, c.block) or wt.dominates(c.block, s_.block))
+                   and [(d, l) for d, l, _ in dom_guards(wt, c.block)][:len(g)] == g[:len([(d, l) for d, l, _ in dom_guards(wt, c.block)])]]
+            rem = [c for c in rem if (lambda v: v.isdigit() and int(v) & FLUSHED)(describe_operand(wt, c.args[1]).replace("bitor(1, 2)", "3"))]
+            arm = [l for d, l in g if d.startswith("disc(")][-2:]
+            r.check(bool(rem), "write_task/Data-write@%s/clears-FLUSHED" % "-".join(arm), s_.loc(), "the fed (unflushed) command is followed by task_state.remove(FLUSHED): the idle task will flush it",
+                    "a command is written with feed (no flush) but FLUSHED stays set: once idle the task waits without flushing and the command never reaches the remote lane")
+        if n < 2:
+            raise AnchorMissing("write_task: expected 2 unflushed Data writes, found %d" % n)
+        # conversely the idle branches flush exactly when FLUSHED is not set
+        fl = [c for c in wt.calls if c.name == "contains" and describe_operand(wt, c.args[0]) == "task_state" and describe_operand(wt, c.args[1]) == str(FLUSHED)]
+        r.check(len(fl) == 2 and all(any(d == "disc(state)" and l == "Idle" for d, l, _ in dom_guards(wt, c.block)) for c in fl), "write_task/Idle/flush-iff-not-FLUSHED", where(wt), "both idle waits test FLUSHED to decide whether to flush while waiting")
+
     with ctx.rule("C07.R5", "T2", "every registration of a consumer sends a sync at once or records NEEDS_SYNC", floor=4) as r:
         regs = [c for c in wt.calls if c.name == "push" and describe_operand(wt, c.args[0]) == "registered"]
         sns = [c for c in wt.calls if c.name == "set_needs_sync"]
